@@ -10,10 +10,10 @@ package format
 // 0..idLen bytes over [A-Za-z0-9_].  The two calls may be given the same
 // template with different identifiers, templates that are prefixes of each
 // other, equal inputs, or unrelated ones.
-func verifHistoryInput(k string) (tpl, id string, valid bool) {
+func verifHistoryInput(k string, invalid bool) (tpl, id string, valid bool) {
 	word := "designer"
 	valid = true
-	if verifBool(k + "-invalid") {
+	if invalid {
 		word, valid = "design", false
 	}
 	tpl = "go" + verifString(k+"-sep", 1) + word + verifString(k+"-post", 1)
@@ -24,8 +24,9 @@ func verifHistoryInput(k string) (tpl, id string, valid bool) {
 }
 
 func Verif_C20_history() {
-	tpl1, id1, _ := verifHistoryInput("first")
-	tpl2, id2, _ := verifHistoryInput("second")
+	c := verifCase(4) // which of the two calls has the invalid template
+	tpl1, id1, _ := verifHistoryInput("first", c&1 != 0)
+	tpl2, id2, _ := verifHistoryInput("second", c&2 != 0)
 	_, panicked := verifExpectPanic(func() { FileNamingFormat(tpl1, id1) })
 	verifAssert(!panicked, "FileNamingFormat never panics")
 
